@@ -95,7 +95,7 @@ func runC15(ci interface{}) Result {
 		vstat.Note("inconclusive: " + tr.Inconclusive)
 		return r
 	}
-	r.Classes = append(r.Classes, "refresh:"+sc.Cfg.Refresh)
+	r.Classes = append(append(r.Classes, "refresh:"+sc.Cfg.Refresh), featureClasses(sc)...)
 	// did a fault fire, and which
 	var faultSeq int64
 	var faultText, site string
